@@ -47,6 +47,7 @@ def run(ctx) -> None:
     r5_keyword_wildcards(ctx)
     r6_rebuild_sites(ctx)
     r7_one_to_many(ctx)
+    r8_string_tables(ctx)
 
 
 def _item_param(f: FuncInfo) -> Optional[str]:
@@ -352,3 +353,62 @@ def r7_one_to_many(ctx) -> None:
     else:
         r.violation("C12.R7", f.qual, "detection.detection_items = list(filter(...DeleteSigmaDetectionItem...))", "dropped items stay in the detection", f.loc)
     r.floor("C12.R7", 3)
+
+
+def r8_string_tables(ctx) -> None:
+    from ..tabulate import Interp, Raised
+    r, prog = ctx.r, ctx.prog
+    r.rule("C12.R8", "small string rewrites, tabulated: field_name_prefix_mapping replaces exactly the leading prefix (one-to-one and one-to-many) and declines other names; hashes_fields normalises the algorithm tag to upper case before validating it and building the field name")
+    f = prog.func(TR + ".fields.FieldPrefixMappingTransformation.apply_field_name")
+
+    class _S:
+        def __init__(self, mapping):
+            self.mapping = mapping
+
+    wrong = []
+    n = 0
+    for mapping in ({"proc.": "process."}, {"proc.": ["a.", "b."]}, {"win.": "w.", "proc.": "process."}):
+        for field in (None, "proc.name", "proc.parent.proc.name", "proc.", "other.name", "xproc.name", "name.proc."):
+            it = Interp({"self": _S(mapping), "field": field, "SigmaProcessingItemError": lambda *a, **k: "SigmaProcessingItemError"})
+            try:
+                got = it.call(f.node.body)
+            except Raised as e:
+                got = f"<raises {e}>"
+            want = None
+            if field is not None:
+                for src, dest in mapping.items():
+                    if field.startswith(src):
+                        want = dest + field[len(src):] if isinstance(dest, str) else [d + field[len(src):] for d in dest]
+                        break
+            n += 1
+            if got != want:
+                wrong.append(f"mapping {mapping}, field {field!r}: {got!r} instead of {want!r}")
+    if wrong:
+        r.violation("C12.R8", f.qual, f"prefix mapping table: {wrong[0]}", f"{len(wrong)} of {n} tabulated cases deviate: only the leading occurrence of the prefix is the prefix — the same text further right in the field name must stay", f.loc)
+    else:
+        r.ok("C12.R8", f.qual, f"{n} cases (3 mappings x 7 names): leading prefix replaced, rest of the name kept, other names declined", f.loc)
+    g = prog.func(TR + ".values.HashesFieldsDetectionItemTransformation._extract_hash_algo_and_value")
+
+    class _H:
+        valid_hash_algos = ["MD5", "SHA1"]
+
+        def _determine_hash_algo_by_length(self, v):
+            return {3: "MD5", 5: "SHA1"}.get(len(v), "")
+
+    wrong = []
+    n = 0
+    for value, want in (("MD5=abc", ("MD5", "abc")), ("md5=abc", ("MD5", "abc")), ("Sha1|abcde", ("SHA1", "abcde")), ("*md5=abc*", ("MD5", "abc")),
+                        ("SHA256=abcd", ("", "abcd")), ("abc", ("MD5", "abc")), ("abcde", ("SHA1", "abcde")), ("abcdefg", ("", "abcdefg"))):
+        it = Interp({"self": _H(), "value": value})
+        try:
+            got = it.call(g.node.body)
+        except Raised as e:
+            got = f"<raises {e}>"
+        n += 1
+        if got != want:
+            wrong.append(f"{value!r}: {got!r} instead of {want!r}")
+    if wrong:
+        r.violation("C12.R8", g.qual, f"hash tag table: {wrong[0]}", f"{len(wrong)} of {n} tabulated cases deviate: the algorithm tag decides the field name (prefix + tag); a tag that is validated case-insensitively but used as written yields Filemd5 / FileSha1 and splits values of one algorithm over several fields", g.loc)
+    else:
+        r.ok("C12.R8", g.qual, f"{n} cases (tag spellings, separators, wildcards, length fallback): tag normalised to upper case, unknown algorithms dropped", g.loc)
+    r.floor("C12.R8", 2)
